@@ -106,7 +106,8 @@ func runWorld(t *testing.T, res *vh.Result, tr *vh.Trace, wi int, ws worldSpec, 
 		gi = *ws.WI
 	}
 	w := &World{T: t, Res: res, Tr: tr, WI: gi, Net: chainkit.NewNet(5, 3), SRIH: ws.SRIH, MTB: uint32(ws.MTB),
-		Node: variant(ws.Node, ws.GCP), MaxTx: ws.MaxTx, Cont: ws.Cont, sched: ws.Sched, P2P: ws.Jump > 0, SSI: ws.SSI}
+		Node: variant(ws.Node, ws.GCP), MaxTx: ws.MaxTx, Cont: ws.Cont, sched: ws.Sched, P2P: ws.Jump > 0, SSI: ws.SSI,
+		ConcFlush: ws.Jump == 0 && gi%3 == 2}
 	if len(ws.Quiet) == 2 {
 		w.Quiet = [2]uint32{uint32(ws.Quiet[0]), uint32(ws.Quiet[1])}
 	}
